@@ -3,7 +3,6 @@ package c14
 import (
 	"fmt"
 	"math/rand/v2"
-	"strconv"
 	"strings"
 )
 
@@ -28,6 +27,10 @@ import (
 // pointer, alone; fill / replace / map-into work in place, so the donor of a
 // tail shows the update.
 var routeNames = []string{"cdr", "sub", "rev", "nrev", "del", "fp", "push"}
+
+// freshRouteFn names, for the routes whose result the language defines to be
+// a fresh sequence, the operation that makes it.
+var freshRouteFn = map[string]string{"sub": "subseq", "rev": "reverse"}
 
 func routesFor(typ string) []string {
 	switch typ {
@@ -279,8 +282,11 @@ func buildSameEntries(seqs [][]int, reps int) []sameEntry {
 		}
 		switch ft.sp.fam {
 		case "two", "replace":
+			if ft.sp.fam == "two" && (ft.typ == "octets" || ft.typ == "bit-vector") {
+				continue // search and mismatch: list, vector and string
+			}
 			for si, s := range seqs {
-				bs := append([][2]int{{-1, -1}}, boundsOf(len(s), false)...)
+				bs := boundsOf(len(s), true) // absent bounds included
 				for _, b1 := range bs {
 					for _, b2 := range bs {
 						for fe := 0; fe < 2; fe++ {
@@ -319,5 +325,3 @@ func (c *Case) decorSig() string {
 	}
 	return s
 }
-
-func itoa(i int) string { return strconv.Itoa(i) }
